@@ -159,6 +159,12 @@ type Cluster struct {
 	Servers    map[string]*ServerState
 	MetaAddr   string
 	MasterAddr string
+	// MetaCorrupt: the next hbase:meta answers carry these bytes as the info:regioninfo value (one
+	// entry per answer that has rows)
+	MetaCorrupt [][]byte
+	// ZKMetaAddr, if set, is what ZooKeeper says about hbase:meta (stale: the server named there
+	// answers NotServingRegion for it)
+	ZKMetaAddr string
 
 	Script   map[string][]Outcome
 	attempts map[string]int
@@ -522,6 +528,9 @@ func (z zkClient) LocateResource(res zk.ResourceName) (string, error) {
 	}
 	if strings.HasSuffix(string(res), "master") {
 		return c.MasterAddr, nil
+	}
+	if c.ZKMetaAddr != "" {
+		return c.ZKMetaAddr, nil
 	}
 	return c.MetaAddr, nil
 }
